@@ -40,6 +40,13 @@ theorem st_with_pos (buf : Lexer.Bytes) (n m : Nat) (p : Int) (h : p = (m : Int)
 @[simp] theorem st_succ (buf : Lexer.Bytes) (n : Nat) : { st buf n with pos := (n : Int) + 1 } = st buf (n + 1) := by
   simp [st]
 
+@[lexc_ref] theorem mk_st (buf : Lexer.Bytes) (m : Nat) : (⟨buf, (m : Int), false, false⟩ : CLex) = st buf m := rfl
+@[lexc_ref] theorem mk_st_succ (buf : Lexer.Bytes) (m : Nat) : (⟨buf, (m : Int) + 1, false, false⟩ : CLex) = st buf (m + 1) := rfl
+@[lexc_ref] theorem mk_st_add (buf : Lexer.Bytes) (m k : Nat) : (⟨buf, (m : Int) + (k : Int), false, false⟩ : CLex) = st buf (m + k) := rfl
+
+@[lexc_ref] theorem mk_st_succ2 (buf : Lexer.Bytes) (m : Nat) : (⟨buf, (m : Int) + 1 + 1, false, false⟩ : CLex) = st buf (m + 1 + 1) := rfl
+@[lexc_ref] theorem mk_st_lit (buf : Lexer.Bytes) (m k : Nat) : (⟨buf, (m : Int) + (OfNat.ofNat (k + 2) : Int), false, false⟩ : CLex) = st buf (m + (k + 2)) := rfl
+
 /-! ### reads -/
 
 theorem rd_in (buf : Lexer.Bytes) (n : Nat) (h : n < buf.length) : rd (st buf n) 0 = (st buf n, sc buf[n]) := by
@@ -144,6 +151,12 @@ theorem iseos_in (buf : Lexer.Bytes) (n : Nat) (h : n < buf.length) : (iseos (st
 theorem iseos_out (buf : Lexer.Bytes) (n : Nat) (h : buf.length ≤ n) : (iseos (st buf n) != 0) = true := by
   rw [iseos_ref]; simp [Lexer.iseos]; omega
 
+/-- the same two facts for a condition `simp` has already normalised to a proposition -/
+theorem iseos_in0 (buf : Lexer.Bytes) (n : Nat) (h : n < buf.length) : iseos (st buf n) = 0 := by
+  simpa using iseos_in buf n h
+theorem iseos_out0 (buf : Lexer.Bytes) (n : Nat) (h : buf.length ≤ n) : (iseos (st buf n) = 0) = False := by
+  simpa using iseos_out buf n h
+
 theorem scpiLex_IsEos_ref (buf : Lexer.Bytes) (n : Nat) : (scpiLex_IsEos (st buf n) != 0) = Lexer.iseos buf n := by
   simp only [scpiLex_IsEos]; exact iseos_ref buf n
 
@@ -196,24 +209,24 @@ theorem skipOne_le (buf : Lexer.Bytes) (n : Nat) (p : UInt8 → Bool) (h : n ≤
   · exact h
 
 /-- THE LOOP LEMMA.  A loop whose condition MEANS `!iseos && p(pos[0])` on every clean state (and leaves the state clean:
-no read outside the buffer) and whose body moves the cursor by one and updates its locals by `step` behaves as the hand
+no read outside the buffer; at and beyond the end of the input it must answer `false` WITHOUT reading) and whose body moves the cursor by one and updates its locals by `step` behaves as the hand
 model's `skipMany`, within `buf.length - n + 1` iterations. -/
 theorem whileC_skip {L ρ : Type} (cond : CLex → L → CLex × Bool) (body : CLex → L → CLex × L × Flow ρ)
     (p : UInt8 → Bool) (step : L → L) (buf : Lexer.Bytes)
-    (hc : ∀ n l, n ≤ buf.length → cond (st buf n) l = (st buf n, Lexer.peekP buf n p))
+    (hc : ∀ n l, cond (st buf n) l = (st buf n, Lexer.peekP buf n p))
     (hb : ∀ n l, n < buf.length → Lexer.peekP buf n p = true → body (st buf n) l = (st buf (n + 1), step l, Flow.next))
-    (fuel : Nat) (n : Nat) (l : L) (hn : n ≤ buf.length) (hf : buf.length - n < fuel) :
+    (fuel : Nat) (n : Nat) (l : L) (hf : buf.length - n < fuel) :
     whileC cond body fuel (st buf n) l =
       (st buf (Lexer.skipMany buf n p), iter step (Lexer.skipMany buf n p - n) l, none) := by
   induction fuel generalizing n l with
   | zero => omega
   | succ fuel ih =>
-    rw [whileC, hc n l hn]
+    rw [whileC, hc n l]
     cases hp : Lexer.peekP buf n p
     · simp [skipMany_stop hp, iter]
     · have hlt := peekP_lt hp
       simp only [hb n l hlt hp]
-      rw [ih (n + 1) (step l) (by omega) (by omega), skipMany_step hp]
+      rw [ih (n + 1) (step l) (by omega), skipMany_step hp]
       have hge := skipMany_ge buf (n + 1) p
       have : Lexer.skipMany buf (n + 1) p - n = (Lexer.skipMany buf (n + 1) p - (n + 1)) + 1 := by omega
       rw [this, iter]
@@ -229,7 +242,9 @@ attribute [lexc_cls] sc_beq
 /-- splits the remaining `if`s and compares clean states field by field (cursor arithmetic by `omega`) -/
 macro "lexc_close" : tactic => `(tactic|
   (repeat' split
-   all_goals (try simp_all [st])
+   all_goals (try simp_all [st, lexc_code])
+   all_goals (try (repeat' split))
+   all_goals (try simp_all [st, lexc_code])
    all_goals (try omega)))
 
 /-- a condition or a straight-line piece of generated text on the clean state `st buf n`, by cases on `n < buf.length`:
@@ -237,10 +252,10 @@ inside, `iseos` is false and the reads deliver the byte; at the end, `iseos` is 
 (`rd_out` is deliberately not used: a read at the end of the input leaves a state that is not clean) -/
 macro "lexc_cases " n:term ", " buf:term : tactic => `(tactic|
   (by_cases hlt_ : $n < List.length $buf
-   · simp [iseos_in _ _ hlt_, rd_in _ _ hlt_, ischr_in _ _ _ hlt_, peekP_in _ _ _ hlt_, lexc_cls, uc, *]
+   · simp [iseos_in _ _ hlt_, iseos_in0 _ _ hlt_, rd_in _ _ hlt_, ischr_in _ _ _ hlt_, peekP_in _ _ _ hlt_, lexc_cls, uc, *]
      try lexc_close
    · have hge_ : List.length $buf ≤ $n := Nat.le_of_not_lt hlt_
-     simp [iseos_out _ _ hge_, peekP_out _ _ _ hge_, uc, *]
+     simp [iseos_out _ _ hge_, iseos_out0 _ _ hge_, peekP_out _ _ _ hge_, uc, *]
      try lexc_close))
 
 /-- rewrites the first loop of the goal with `whileC_skip` for the class `p` (locals: one counter, or none) -/
@@ -248,56 +263,55 @@ macro "lexc_loop " p:term ", " buf:term : tactic => `(tactic|
   (first
     | rw [whileC_skip (p := $p) (step := ((· + 1) : Int → Int)) (buf := $buf)]
     | rw [whileC_skip (p := $p) (step := (id : Unit → Unit)) (buf := $buf)]
-   case hc => intro n_ l_ hn_; lexc_cases n_, $buf
+   case hc => intro n_ l_; lexc_cases n_, $buf
    case hb => intro n_ l_ hlt_ hp_; simp; try lexc_close
-   case hn => first | assumption | omega | (simp [*]; done)
    case hf => omega))
 
 /-! ### the `skip*` primitives -/
 
-@[lexc_ref] theorem skipWs_ref (buf : Lexer.Bytes) (n : Nat) (h : n ≤ buf.length) :
+@[lexc_ref] theorem skipWs_ref (buf : Lexer.Bytes) (n : Nat) :
     skipWs (st buf n) = (st buf (Lexer.skipMany buf n Lexer.isWs), (Lexer.skipMany buf n Lexer.isWs : Int) - n) := by
   have := skipMany_ge buf n Lexer.isWs
   simp only [skipWs, st_buf]
   lexc_loop Lexer.isWs, buf
   simp [iter_add_one]; try lexc_close
 
-@[lexc_ref] theorem skipNumbers_ref (buf : Lexer.Bytes) (n : Nat) (h : n ≤ buf.length) :
+@[lexc_ref] theorem skipNumbers_ref (buf : Lexer.Bytes) (n : Nat) :
     skipNumbers (st buf n) = (st buf (Lexer.skipMany buf n Lexer.isDigit), (Lexer.skipMany buf n Lexer.isDigit : Int) - n) := by
   have := skipMany_ge buf n Lexer.isDigit
   simp only [skipNumbers, st_buf]
   lexc_loop Lexer.isDigit, buf
   simp [iter_add_one]; try lexc_close
 
-@[lexc_ref] theorem skipAlpha_ref (buf : Lexer.Bytes) (n : Nat) (h : n ≤ buf.length) :
+@[lexc_ref] theorem skipAlpha_ref (buf : Lexer.Bytes) (n : Nat) :
     skipAlpha (st buf n) = (st buf (Lexer.skipMany buf n Lexer.isAlpha), (Lexer.skipMany buf n Lexer.isAlpha : Int) - n) := by
   have := skipMany_ge buf n Lexer.isAlpha
   simp only [skipAlpha, st_buf]
   lexc_loop Lexer.isAlpha, buf
   simp [iter_add_one]; try lexc_close
 
-@[lexc_ref] theorem skipHexNum_ref (buf : Lexer.Bytes) (n : Nat) (h : n ≤ buf.length) :
+@[lexc_ref] theorem skipHexNum_ref (buf : Lexer.Bytes) (n : Nat) :
     skipHexNum (st buf n) = (st buf (Lexer.skipMany buf n Lexer.isXDigit), (Lexer.skipMany buf n Lexer.isXDigit : Int) - n) := by
   have := skipMany_ge buf n Lexer.isXDigit
   simp only [skipHexNum, st_buf]
   lexc_loop Lexer.isXDigit, buf
   simp [iter_add_one]; try lexc_close
 
-@[lexc_ref] theorem skipOctNum_ref (buf : Lexer.Bytes) (n : Nat) (h : n ≤ buf.length) :
+@[lexc_ref] theorem skipOctNum_ref (buf : Lexer.Bytes) (n : Nat) :
     skipOctNum (st buf n) = (st buf (Lexer.skipMany buf n Lexer.isQDigit), (Lexer.skipMany buf n Lexer.isQDigit : Int) - n) := by
   have := skipMany_ge buf n Lexer.isQDigit
   simp only [skipOctNum, st_buf]
   lexc_loop Lexer.isQDigit, buf
   simp [iter_add_one]; try lexc_close
 
-@[lexc_ref] theorem skipBinNum_ref (buf : Lexer.Bytes) (n : Nat) (h : n ≤ buf.length) :
+@[lexc_ref] theorem skipBinNum_ref (buf : Lexer.Bytes) (n : Nat) :
     skipBinNum (st buf n) = (st buf (Lexer.skipMany buf n Lexer.isBDigit), (Lexer.skipMany buf n Lexer.isBDigit : Int) - n) := by
   have := skipMany_ge buf n Lexer.isBDigit
   simp only [skipBinNum, st_buf]
   lexc_loop Lexer.isBDigit, buf
   simp [iter_add_one]; try lexc_close
 
-@[lexc_ref] theorem skipProgramExpression_ref (buf : Lexer.Bytes) (n : Nat) (h : n ≤ buf.length) :
+@[lexc_ref] theorem skipProgramExpression_ref (buf : Lexer.Bytes) (n : Nat) :
     skipProgramExpression (st buf n) = st buf (Lexer.skipMany buf n Lexer.isProgramExpression) := by
   simp only [skipProgramExpression, st_buf]
   lexc_loop Lexer.isProgramExpression, buf
